@@ -428,6 +428,11 @@ class _Run:
             return True
         pos = h["pos"]
         v = None if mode == "none" else _pyscalar(rng, b.cplx) if mode == "scalar" else _values(rng, shp, b.cplx)
+        if isinstance(v, np.ndarray) and int(op["s"]) % 4 == 0:
+            # a contribution of a narrower dtype than the state (real onto complex, single onto double precision): the
+            # zero sensitivity a slice creates takes the state's dtype, so later wider contributions lose nothing
+            v = v.real.copy() if b.cplx else v.astype(np.float32)
+            self.labels.add("narrower_dtype_through_slice")
         vv = v.copy() if isinstance(v, np.ndarray) else v
         if self.pm("slice.sensitivity = value", lambda: setattr(sig, "sensitivity", vv)) is _FAIL:
             return True
@@ -495,7 +500,13 @@ class _Run:
         if donor is None:
             obj = _values(rng, shp, b.cplx)
             donor = {"obj": obj, "val": obj.copy(), "shape": tuple(shp), "cplx": b.cplx, "uses": 0, "users": []}
-            self.donors.append(donor)
+            if h["pos"] is not None and int(op["s"]) % 4 == 0:
+                # narrower dtype than the state, added through a slice (not offered for reuse on other signals)
+                obj = obj.real.copy() if b.cplx else obj.astype(np.float32)
+                donor = dict(donor, obj=obj, val=obj.copy())
+                self.labels.add("narrower_dtype_through_slice")
+            else:
+                self.donors.append(donor)
             self.labels.add("add:fresh")
         donor["uses"] += 1
         donor["users"].append(h)
